@@ -133,8 +133,8 @@ def run_foreign(prop, tier, seed, projections, n, explanation, mix=None, extra_j
 
 
 def run(tier, seed, replay):
-    n = 250 if tier == 'quick' else 2500
+    n = 250 if tier == 'quick' else 1000
     gate = common.proof_gate('C10', ['Model/Dev.v', 'Proofs/DevProps.v', 'Props/C10.v'])
     return run_foreign('C10', tier, seed, ('read', 'api', 'reopen', 'valid', 'backing-written', 'open'), n,
                        'Theorems over the device model (Props/C10.v: COW keeps the source content, replaced compressed clusters released once) + model/library correspondence + COW histories over backing-provided and compressed clusters: FlatDisk oracle now and after flush+reopen, validb on the flushed file, backing request logs read-only.',
-                       level='proof', gate=gate, sim_n=(40 if tier == 'quick' else 1000))
+                       level='proof', gate=gate, sim_n=(40 if tier == 'quick' else 400))
